@@ -401,4 +401,10 @@ def tidPattern : List Nat := "thread.%d".toList.map Char.toNat
     `ovni_proc_init` only) or move an already built thread directory. -/
 def procLevelPathFns : List String := ["mkdir_proc", "create_proc_dir", "move_thdir_to_final"]
 
+/-- A format made of `%s` and `/` only (`"%s/%s"`): a pure join of paths that were built elsewhere.
+    It adds no literal component, so it cannot make two threads meet on one path unless its inputs
+    already do; it is accepted wherever it is written (a helper extracted from
+    `move_thdir_to_final`, say). -/
+def pureJoin (l : List Nat) : Bool := l.all (fun c => c = 37 || c = 115 || c = 47)
+
 end Ovni.Rt.Conc
